@@ -1,4 +1,5 @@
 pub mod axb;
 pub mod axfam;
+pub mod axnl;
 pub mod funfam;
 pub mod funlang;
